@@ -76,11 +76,8 @@ theorem insertT_mid (g : Nat) (t : TableDir) (a b : List (Nat × TableDir)) (ha 
     simp only [List.cons_append, insertT]
     rw [if_neg (by omega), if_neg (by omega), ih (fun p hp => ha p (List.mem_cons_of_mem _ hp))]
 
-/-- the three calls of a `RemoveAll` of a complete table directory -/
-def ev3 (g : Nat) : List Ev := [.tblUnlinkPart g true, .tblUnlinkPart g false, .tblRmdir g]
-
-theorem applyEvs_ev3 (x : Disk) (gs : List Nat) :
-    applyEvs x (gs.flatMap ev3) = { x with tables := x.tables.filter (fun p => !gs.contains p.1) } := by
+theorem applyEvs_rmAll (x : Disk) (jf : Nat → Option Layer) (gs : List Nat) :
+    applyEvs x (gs.flatMap fun g => rmAll g (jf g)) = { x with tables := x.tables.filter (fun p => !gs.contains p.1) } := by
   induction gs generalizing x with
   | nil =>
     cases x
@@ -88,9 +85,15 @@ theorem applyEvs_ev3 (x : Disk) (gs : List Nat) :
     rw [List.filter_eq_self.2 (fun _ _ => rfl)]
   | cons g gs ih =>
     rw [List.flatMap_cons, applyEvs_append]
-    have h1 : applyEvs x (ev3 g) = { x with tables := eraseT g x.tables } := by
-      simp only [ev3, applyEvs_cons, applyEvs_nil, applyEv]
-      rw [eraseT_updT, eraseT_updT]
+    have h1 : applyEvs x (rmAll g (jf g)) = { x with tables := eraseT g x.tables } := by
+      unfold rmAll
+      cases jf g with
+      | none =>
+        simp only [List.nil_append, applyEvs_cons, applyEvs_nil, applyEv]
+        rw [eraseT_updT, eraseT_updT]
+      | some j =>
+        simp only [List.singleton_append, applyEvs_cons, applyEvs_nil, applyEv]
+        rw [eraseT_updT, eraseT_updT, eraseT_updT]
     rw [h1, ih]
     simp only [eraseT, List.filter_filter]
     congr 1
@@ -133,7 +136,7 @@ theorem filter_run (pre sel post : List Tbl) (hs : ((pre ++ sel ++ post).map (·
 /-! ## interrupted deletion of the inputs of a flagged compaction -/
 
 theorem input_events_good (c : CompDir) (m : CompMeta) (hf : c.flag = some m) (es : List Ev)
-    (hes : ∀ e ∈ es, ∃ g, (g ∈ m.inputs ∨ g = m.replacement) ∧ ((∃ keep, e = .tblUnlinkPart g keep) ∨ e = .tblRmdir g)) :
+    (hes : ∀ e ∈ es, ∃ g, (g ∈ m.inputs ∨ g = m.replacement) ∧ ((∃ keep, e = .tblUnlinkPart g keep) ∨ e = .tblRmdir g ∨ (∃ j, e = .tblLoadable g j))) :
     ∀ x, DiskOk x → x.comps = [c] → ∀ n,
       DiskOk (applyEvs x (es.take n)) ∧ norm (applyEvs x (es.take n)) = norm x := by
   induction es with
@@ -147,7 +150,7 @@ theorem input_events_good (c : CompDir) (m : CompMeta) (hf : c.flag = some m) (e
       obtain ⟨g, hg, he⟩ := hes e List.mem_cons_self
       obtain ⟨h1, h2⟩ := input_event_ok x hx c m hc hf g hg e he
       have hc' : (applyEv x e).comps = [c] := by
-        rcases he with (⟨keep, rfl⟩ | rfl) <;> exact hc
+        rcases he with (⟨keep, rfl⟩ | rfl | ⟨j, rfl⟩) <;> exact hc
       obtain ⟨h3, h4⟩ := ih (fun e' he' => hes e' (List.mem_cons_of_mem _ he')) (applyEv x e) h1 hc' n
       exact ⟨h3, h4.trans h2⟩
 
@@ -158,12 +161,12 @@ theorem rd_congr_vis (mem : Layer) (a b : List Tbl) (k : Key) (h : vis (tablesGe
   unfold rd; rw [h]
 
 theorem compact_seg (d : Disk) (v : Vol) (junk : List WalFile) (ro rc : List Mutation) (tn : Bool)
-    (h : QW d v junk ro rc tn) (sizes : List Nat) :
-    Seg (Good3 d) (fun x => x = d) (compactEvs d v sizes).1
-      (fun x => QW x (compactEvs d v sizes).2 junk ro rc tn) := by
+    (h : QW d v junk ro rc tn) (sizes : List Nat) (jk : List (Nat × Layer) := []) :
+    Seg (Good3 d) (fun x => x = d) (compactEvs d v sizes jk).1
+      (fun x => QW x (compactEvs d v sizes jk).2 junk ro rc tn) := by
   have hd := h.diskOk
   rcases compactStep_spec2 v.s sizes with (he | ⟨pre, t0, sel', post, htab, he⟩)
-  · have : compactEvs d v sizes = ([], v) := by simp [compactEvs, he]
+  · have : compactEvs d v sizes jk = ([], v) := by simp [compactEvs, he]
     rw [this]
     apply Seg.nil
     intro x hx; subst hx
@@ -193,9 +196,9 @@ theorem compact_seg (d : Disk) (v : Vol) (junk : List WalFile) (ro rc : List Mut
       rw [this]
       simp [merged]
     have hfresh : freshId d = 1 := by simp [freshId, h.comps]
-    have hevs : compactEvs d v sizes =
+    have hevs : compactEvs d v sizes jk =
         ([.compMkdir 1, .compProgress 1, .compComplete 1 cells, .compProgress 1, .compFlag 1 m] ++
-          ((t0 :: sel').map (·.gen)).flatMap ev3 ++ [.compRename 1 t0.gen], { v with s := s' }) := by
+          ((t0 :: sel').map (·.gen)).flatMap (fun g => rmAll g (lookupJ jk g)) ++ [.compRename 1 t0.gen], { v with s := s' }) := by
       unfold compactEvs
       rw [he]
       simp only [List.map_cons, hfresh]
@@ -290,23 +293,31 @@ theorem compact_seg (d : Disk) (v : Vol) (junk : List WalFile) (ro rc : List Mut
       · intro x hx
         exact ⟨hx ▸ ⟨hY5ok, hlogY5⟩, hx⟩
     -- segment 2: the inputs are deleted
-    have hS2 : Seg (Good3 d) (fun x => x = { d with comps := [c5] }) (((t0 :: sel').map (·.gen)).flatMap ev3)
+    have hS2 : Seg (Good3 d) (fun x => x = { d with comps := [c5] }) (((t0 :: sel').map (·.gen)).flatMap (fun g => rmAll g (lookupJ jk g)))
         (fun x => x = { d with comps := [c5], tables := encT (pre ++ post) }) := by
       intro x hx
       subst hx
       refine ⟨?_, ?_⟩
       · intro n
-        obtain ⟨g1, g2⟩ := input_events_good c5 m rfl (((t0 :: sel').map (·.gen)).flatMap ev3) (by
+        obtain ⟨g1, g2⟩ := input_events_good c5 m rfl (((t0 :: sel').map (·.gen)).flatMap (fun g => rmAll g (lookupJ jk g))) (by
           intro e he
           obtain ⟨g, hg, heg⟩ := List.mem_flatMap.1 he
           refine ⟨g, Or.inl hg, ?_⟩
-          simp only [ev3, List.mem_cons, List.not_mem_nil, or_false] at heg
-          rcases heg with (rfl | rfl | rfl)
-          · exact Or.inl ⟨true, rfl⟩
-          · exact Or.inl ⟨false, rfl⟩
-          · exact Or.inr rfl) { d with comps := [c5] } hY5ok rfl n
+          unfold rmAll at heg
+          rcases List.mem_append.1 heg with (heg | heg)
+          · cases hj : lookupJ jk g with
+            | none => rw [hj] at heg; cases heg
+            | some j =>
+              rw [hj] at heg
+              simp only [List.mem_singleton] at heg
+              exact Or.inr (Or.inr ⟨j, heg⟩)
+          · simp only [List.mem_cons, List.not_mem_nil, or_false] at heg
+            rcases heg with (rfl | rfl | rfl)
+            · exact Or.inl ⟨true, rfl⟩
+            · exact Or.inl ⟨false, rfl⟩
+            · exact Or.inr (Or.inl rfl)) { d with comps := [c5] } hY5ok rfl n
         exact ⟨g1, (logical_of_norm g2).trans hlogY5⟩
-      · rw [applyEvs_ev3]
+      · rw [applyEvs_rmAll _ (fun g => lookupJ jk g)]
         show ({ d with comps := [c5], tables := d.tables.filter _ } : Disk) = _
         rw [h.tables, htab, filter_run pre (t0 :: sel') post (by rw [← htab]; exact h.inv.gens.1)]
     -- segment 3: the rename
@@ -316,7 +327,7 @@ theorem compact_seg (d : Disk) (v : Vol) (junk : List WalFile) (ro rc : List Mut
         [.compRename 1 t0.gen] (fun x => QW x { v with s := s' } junk ro rc tn) := by
       have hY6ok : DiskOk { d with comps := [c5], tables := encT (pre ++ post) } ∧
           logical { d with comps := [c5], tables := encT (pre ++ post) } = logical d := by
-        have := (hS2 _ rfl).1 ((((t0 :: sel').map (·.gen)).flatMap ev3).length)
+        have := (hS2 _ rfl).1 ((((t0 :: sel').map (·.gen)).flatMap (fun g => rmAll g (lookupJ jk g))).length)
         rw [List.take_length, (hS2 _ rfl).2] at this
         exact this
       have hgone : ∀ p ∈ encT (pre ++ post), p.1 ∉ m.inputs ∧ p.1 ≠ m.replacement := by
